@@ -1,6 +1,14 @@
-"""C20 - the other side of the spawn-like round trip: a separate interpreter that unpickles the objects the
-parent pickled (gemseo imported from the same PYTHONPATH), optionally runs a probe on them, and sends them
-back pickled.  Frames: 8-byte little-endian length + pickle of a dict."""
+"""C20 - the other interpreter: a separate Python process (gemseo imported from the same PYTHONPATH, its own
+string-hash seed) that
+
+* "spawn":   unpickles the objects the parent pickled, optionally runs a probe on them, and sends them back
+             pickled (request {"blob", "probe"});
+* "session": RESTORES an object from the pickle file another interpreter wrote (gemseo.utils.pickle.from_pickle)
+             and KEEPS it: every later action of the behaviour on that world is performed here, through the same
+             adapter the parent uses (request {"op": "load" | "call" | "repickle" | "save" | "reset"}), and only
+             what the adapter returns (values, projections) travels back.
+
+Frames: 8-byte little-endian length + pickle of a dict."""
 from __future__ import annotations
 
 import logging
@@ -11,9 +19,11 @@ import sys
 import threading
 import time
 import warnings
+from pathlib import Path
 
 
 _CATALOGUE = None
+_OBJECTS = {}     # handle -> (adapter, object)
 
 
 def stop_children():
@@ -27,17 +37,24 @@ def stop_children():
             pass
 
 
-def run_probe(obj, probe):
+def adapter_of(spec):
+    """The adapter of a catalogue entry, with the binding of the abstract inputs computed by the parent."""
     from harness.checks import c20_catalog as cat
     from harness.checks import c20_replay as rp
 
     global _CATALOGUE
     if _CATALOGUE is None:
         _CATALOGUE = {e.name: e for e in cat.catalogue()}
-    entry = _CATALOGUE[probe["entry"]]
-    ad = rp.ADAPTERS[entry.adapter](entry, probe["grammar"], None)
-    for k, v in probe["binding"].items():
+    entry = _CATALOGUE[spec["entry"]]
+    for k, v in spec["binding"].items():
         setattr(entry, k, v)
+    work = spec.get("work")
+    return rp.ADAPTERS[entry.adapter](entry, spec["grammar"], None if work is None else Path(work))
+
+
+def run_probe(obj, probe):
+    ad = adapter_of(probe)
+    entry = ad.e
     # execute at every requested point <<x, default>>: at least one of them is not in the cache that came along
     out = []
     for x, v in probe["points"]:
@@ -45,6 +62,56 @@ def run_probe(obj, probe):
             ad.set_default(obj, v)
         out.append(ad.execute(obj, x))
     return out
+
+
+def serve(req):
+    op = req.get("op")
+    if op is None:
+        obj = pickle.loads(req["blob"])
+        ans = {"class": type(obj).__name__}
+        probe = req.get("probe")
+        if probe is not None:
+            # run the executions in THIS process on a second restored instance and report what they returned
+            ans["probe"] = run_probe(pickle.loads(req["blob"]), probe)
+        ans["blob"] = pickle.dumps(obj)
+        return ans
+    if op == "load":
+        # a fresh session reading the file written by to_pickle
+        from gemseo.utils.pickle import from_pickle
+
+        _OBJECTS[req["handle"]] = (adapter_of(req["spec"]), from_pickle(Path(req["path"])))
+        return {"class": type(_OBJECTS[req["handle"]][1]).__name__}
+    if op == "call":
+        ad, obj = _OBJECTS[req["handle"]]
+        return {"result": getattr(ad, req["method"])(obj, *req.get("args", ()))}
+    if op == "repickle":
+        # the object held here is pickled and restored again, in this interpreter
+        ad, obj = _OBJECTS[req["src"]]
+        if req["how"] == "file":
+            from gemseo.utils.pickle import from_pickle, to_pickle
+
+            to_pickle(obj, Path(req["path"]))
+            new = from_pickle(Path(req["path"]))
+        else:
+            new = pickle.loads(pickle.dumps(obj))
+        _OBJECTS[req["dst"]] = (ad, new)
+        return {"class": type(new).__name__, "same_object": new is obj}
+    if op == "save":
+        from gemseo.utils.pickle import to_pickle
+
+        ad, obj = _OBJECTS[req["handle"]]
+        to_pickle(obj, Path(req["path"]))
+        return {}
+    if op == "dumps":
+        ad, obj = _OBJECTS[req["handle"]]
+        return {"blob": pickle.dumps(obj)}
+    if op == "reset":
+        _OBJECTS.clear()
+        return {}
+    if op == "hash_probe":
+        # evidence that this interpreter does not hash like the parent
+        return {"result": [hash("c20"), hash(b"c20"), sys.flags.hash_randomization]}
+    raise ValueError(op)
 
 
 def main():
@@ -73,16 +140,13 @@ def main():
             break
         req = pickle.loads(inp.read(n))
         try:
-            obj = pickle.loads(req["blob"])
-            ans = {"class": type(obj).__name__}
-            probe = req.get("probe")
-            if probe is not None:
-                # run the executions in THIS process on a second restored instance and report what they returned
-                ans["probe"] = run_probe(pickle.loads(req["blob"]), probe)
-            ans["blob"] = pickle.dumps(obj)
+            ans = serve(req)
         except BaseException as ex:  # noqa: BLE001
             ans = {"error": str(ex)[:500], "error_type": type(ex).__name__}
-        data = pickle.dumps(ans)
+        try:
+            data = pickle.dumps(ans)
+        except BaseException as ex:  # noqa: BLE001
+            data = pickle.dumps({"error": f"answer not picklable: {ex}"[:500], "error_type": "HarnessTransport"})
         out.write(struct.pack("<Q", len(data)) + data)
         out.flush()
     stop_children()
